@@ -21,7 +21,7 @@ func init() { Register(c06{}) }
 func (c06) ID() string    { return "C06" }
 func (c06) Level() string { return "exploration" }
 func (c06) Rule() string {
-	return "histories of 1..50 mixed zoo values (scalars, strings at chunk boundaries, binaries, lists, maps, objects re-using earlier class definitions, the same pointer sent twice, nulls) written to ONE stream through Encoder.WriteObject or Serializer.WriteTo+Write (byte offset recorded after every write by a counting writer) and read back through Decoder.ReadObject or Serializer.ReadFrom+Read, also crossed, from a metered reader WITHOUT read-ahead. Offline checker per history: r_i Equiv w_i, cumulative bytes consumed after r_i == cumulative bytes emitted after w_i (cross-checked against the reference decoder's own framing of the stream), a pointer written twice comes back as one pointer, no internal carrier type (reflect.Value, unexported library types) at top level or nested. Thorough adds all histories of length <= 3 over a 12-value alphabet. Non-trivial = history length >= 2; distinct by history hash."
+	return "histories of 1..50 mixed zoo values (and of 225..450 small values with nil / empty / back-referenced map fields) (scalars, strings at chunk boundaries, binaries, lists, maps, objects re-using earlier class definitions, the same pointer sent twice, nulls) written to ONE stream through Encoder.WriteObject or Serializer.WriteTo+Write (byte offset recorded after every write by a counting writer) and read back through Decoder.ReadObject or Serializer.ReadFrom+Read, also crossed, from a metered reader WITHOUT read-ahead. Offline checker per history: r_i Equiv w_i, cumulative bytes consumed after r_i == cumulative bytes emitted after w_i (cross-checked against the reference decoder's own framing of the stream), a pointer written twice comes back as one pointer, no internal carrier type (reflect.Value, unexported library types) at top level or nested. Thorough adds all histories of length <= 3 over a 12-value alphabet. Non-trivial = history length >= 2; distinct by history hash."
 }
 func (c06) ProcOpts() Proc { return Proc{RlimitAS: 4 << 30} }
 
@@ -34,6 +34,13 @@ func (c06) Cases(tier string, seed int64, kf *KnownFindings) []Case {
 	for i := 0; i < n; i++ {
 		cs = append(cs, Case{Kind: "hist", Seed: Mix(seed, i), Count: per, N: 50, Sub: -1})
 	}
+	// long histories of small values: whatever a decoder accumulates per value on ONE stream
+	// (depth counters, reference slots, class tables) is exercised hundreds of times
+	nl := 4
+	if tier == "thorough" {
+		nl = 40
+	}
+	cs = append(cs, Case{Kind: "long", Seed: Mix(seed, 7000), Count: nl, N: 450, Sub: -1})
 	if tier == "thorough" {
 		// all histories of length <= 3 over a 12-value alphabet: 12 + 144 + 1728
 		for a := 0; a < 12; a++ {
@@ -135,6 +142,37 @@ func (c06) Run(c Case, env *Env) Result {
 				hist = []interface{}{l, l, []interface{}{l, m}, m}
 			}
 			mode = j % 4
+		case "long":
+			r := rand.New(rand.NewSource(Mix(c.Seed, j)))
+			n := c.N/2 + r.Intn(c.N/2)
+			shared := &zoo.Inner{A: 1, S: "sh"}
+			for i := 0; i < n; i++ {
+				var v interface{}
+				switch r.Intn(9) {
+				case 0:
+					v = &zoo.GF{Id: int32(i)} // nil map, nil slice, zero time, empty string fields
+				case 1:
+					m := map[string]int32{"k": int32(i)}
+					v = &zoo.Shr{M1: m, M2: m, X: shared} // a map field that is a back-reference
+				case 2:
+					v = &zoo.MpStrI32{M: map[string]int32{}}
+				case 3:
+					v = &zoo.MpStrPtr{M: map[string]*zoo.Inner{"a": shared, "b": shared}}
+				case 4:
+					v = &zoo.SlPtr{V: []*zoo.Inner{shared, nil, shared}}
+				case 5:
+					v = int32(i)
+				case 6:
+					v = &zoo.PtrMap{X: shared}
+				case 7:
+					v = &zoo.MpStrMp{M: map[string]map[string]string{"o": {}, "p": nil}}
+				default:
+					v = &zoo.WithInner{X: zoo.Inner{A: int32(i), S: "w"}, P: shared, N: int32(i)}
+				}
+				mergeMaps(tm, nm, v)
+				hist = append(hist, v)
+			}
+			featSet["long-history"] = true
 		case "alpha":
 			k := j
 			if c.N >= 0 {
